@@ -145,7 +145,7 @@ def _msg(k, payload):
 
 
 def reader_streams(payloads, nmsgs_list):
-    for hdr in ("L", "LT", "TL"):
+    for hdr in ("L", "LT", "TL", "l", "n", "Tu"):
         for esc in (False, True):
             for n in nmsgs_list:
                 for p in payloads:
